@@ -128,6 +128,14 @@ theorem tracker_over_bytes_is_tracker_over_counts (inmap : Bytes) :
   ⟨fun hm s c hd => TrackBytes.stepByte_trk inmap hm s c hd,
    fun segs rest hs hr t => TrackBytes.fold_record inmap segs rest hs hr t⟩
 
+/-- **(the "neither" case) line-based formats are always fetched by brute force.** EMBL / UniProt / GenBank / DDBJ map the newline to
+    "ignored", so their data scanner produces no end-of-line event (only `header_*` resets and the tail update of `seebuf`): the tracker
+    keeps rpl = bpl = −1 whatever the file, `esl-sfetch --index` never sets `eslSSI_FASTSUBSEQ`, and `esl_ssi_FindSubseq` answers
+    `(doff, actual_start = 1)` — the case `fetchSubseq_eq_scan_slice_brute` covers unconditionally. -/
+theorem linebased_never_fast (evs : List Ev) (h : ∀ e ∈ evs, e = Ev.hdr ∨ ∃ b r, e = Ev.stop b r) :
+    (run {} evs).rpl = -1 ∧ (run {} evs).bpl = -1 :=
+  no_eol_no_geometry evs h
+
 /-- non-vacuity: `>A\nACGT\nACGT\nAC\n>B\nACG` (last line unterminated) ends with rpl = 4, bpl = 5 and both records are well-formed -/
 example : (scanFile [⟨[(5, 4), (5, 4), (3, 2)], none⟩, ⟨[], some (3, 3)⟩]).rpl = 4 ∧
           (scanFile [⟨[(5, 4), (5, 4), (3, 2)], none⟩, ⟨[], some (3, 3)⟩]).bpl = 5 ∧
